@@ -282,6 +282,7 @@ struct C20 : public Driver {
     void aborted(Run& R, int code) {
         AbortCtx& A = abortCtx();
         const std::string at = R.phase == "op" ? R.where() : R.phase;
+        if (R.mm.refused > R.refusedAtCall) R.fired = true;          // the refusal happened inside the call that was interrupted
         if (code == ABORT_ASSERT) {
             std::string file = A.file; size_t p = file.find("/src/xalanc/"); if (p != std::string::npos) file = file.substr(p + 5);
             const std::string fn = assertFn(A.func);
@@ -303,35 +304,73 @@ struct C20 : public Driver {
     }
 
 
-    // ---- every history runs in a forked child of the pre-initialised worker: an AddressSanitizer report or a
-    // std::terminate ends only that history, and the parent turns it into an ordinary violation record.
     static std::string slurp(int fd) { std::string s; lseek(fd, 0, SEEK_SET); char b[8192]; ssize_t n; while ((n = read(fd, b, sizeof b)) > 0) s.append(b, n); close(fd); return s; }
-    static std::string asanSig(const std::string& err, std::string* kindOut, const std::string& cont, const std::string& op) {
-        std::string kind = "unknown"; size_t p = err.find("ERROR: AddressSanitizer: ");
-        if (p != std::string::npos) { size_t e = err.find_first_of(" \n", p + 25); kind = err.substr(p + 25, e - (p + 25)); }
-        if (kindOut) *kindOut = kind;
-        std::vector<std::string> frames, own; bool started = false; size_t q = p == std::string::npos ? 0 : p;
-        const std::string c1 = std::string(classOf(cont)) + "::", c2 = cont == "set" ? "XalanMap::" : c1;
-        while (q < err.size() && own.size() < 2) {
+    // ---- AddressSanitizer reports arrive unsymbolised (ASAN_OPTIONS=symbolize=0, see lib/props_c20.py: a symbolizer
+    // process per crashed history costs more than the history); the frames are resolved here through one
+    // llvm-symbolizer kept for the life of the worker.  Reports that are already symbolised are understood as well.
+    struct Symbolizer {
+        pid_t pid = -1; int toFd = -1; FILE* from = 0; bool failed = false;
+        bool start() {
+            if (pid > 0) return true; if (failed) return false;
+            const char* path = getenv("ASAN_SYMBOLIZER_PATH"); if (!path || !*path) path = "/usr/bin/llvm-symbolizer";
+            int a[2], b[2]; if (pipe(a) || pipe(b)) { failed = true; return false; }
+            fflush(stdout); fflush(stderr);
+            const pid_t c = fork(); if (c < 0) { failed = true; return false; }
+            if (c == 0) { dup2(a[0], 0); dup2(b[1], 1); close(a[1]); close(b[0]); execl(path, path, "--demangle", "--inlines", (char*)0); _exit(127); }
+            close(a[0]); close(b[1]); toFd = a[1]; from = fdopen(b[0], "r"); pid = c; return from != 0;
+        }
+        // (function, file) pairs of one address, innermost inlined frame first
+        std::vector<std::pair<std::string, std::string> > query(const std::string& module, const std::string& off) {
+            std::vector<std::pair<std::string, std::string> > r; if (!start()) return r;
+            const std::string q = "\"" + module + "\" " + off + "\n";
+            if (write(toFd, q.data(), q.size()) != (ssize_t)q.size()) { failed = true; pid = -1; return r; }
+            char buf[4096]; std::string fn; bool haveFn = false;
+            while (fgets(buf, sizeof buf, from)) {
+                std::string l = buf; while (!l.empty() && (l.back() == '\n' || l.back() == '\r')) l.pop_back();
+                if (l.empty()) break;
+                if (!haveFn) { fn = l; haveFn = true; } else { r.emplace_back(fn, l); haveFn = false; }
+            }
+            return r;
+        }
+    } symbolizer;
+
+    std::vector<std::pair<std::string, std::string> > firstStack(const std::string& err, size_t from) {
+        std::vector<std::pair<std::string, std::string> > frames; bool started = false; size_t q = from;
+        while (q < err.size() && frames.size() < 40) {
             size_t e = err.find('\n', q); if (e == std::string::npos) e = err.size();
             const std::string ln = err.substr(q, e - q); q = e + 1;
-            size_t h = ln.find_first_not_of(' ');
-            if (h != std::string::npos && ln[h] == '#' && ln.find(" in ") != std::string::npos) {
+            const size_t h = ln.find_first_not_of(' ');
+            if (h != std::string::npos && ln[h] == '#' ) {
                 started = true;
-                size_t in = ln.find(" in ") + 4, sp = ln.rfind(' ');
-                if (sp == std::string::npos || sp <= in) continue;
-                const std::string fn = ln.substr(in, sp - in), file = ln.substr(sp + 1);
-                if (file.find("/src/xalanc/") == std::string::npos) continue;
-                const std::string f = assertFn(fn.c_str());
-                if (frames.size() < 3 && (frames.empty() || frames.back() != f)) frames.push_back(f);
-                if ((f.compare(0, c1.size(), c1) == 0 || f.compare(0, c2.size(), c2) == 0) && (own.empty() || own.back() != f)) own.push_back(f);
+                const size_t in = ln.find(" in ");
+                if (in != std::string::npos) {
+                    const size_t sp = ln.rfind(' '); if (sp == std::string::npos || sp <= in + 4) continue;
+                    frames.emplace_back(ln.substr(in + 4, sp - (in + 4)), ln.substr(sp + 1));
+                } else {
+                    const size_t lp = ln.find('('), plus = ln.find("+0x", lp == std::string::npos ? 0 : lp), rp = ln.find(')', plus == std::string::npos ? 0 : plus);
+                    if (lp == std::string::npos || plus == std::string::npos || rp == std::string::npos) continue;
+                    for (auto& f : symbolizer.query(ln.substr(lp + 1, plus - lp - 1), ln.substr(plus + 1, rp - plus - 1))) frames.push_back(f);
+                }
             } else if (started && ln.find_first_not_of(" \t") == std::string::npos) break;
+        }
+        return frames;
+    }
+    std::string asanSig(const std::string& err, std::string* kindOut, const std::string& cont, const std::string& op, std::string* stackOut) {
+        std::string kind = "unknown"; const size_t p = err.find("ERROR: AddressSanitizer: ");
+        if (p != std::string::npos) { size_t e = err.find_first_of(" \n", p + 25); kind = err.substr(p + 25, e - (p + 25)); }
+        if (kindOut) *kindOut = kind;
+        const std::string c1 = std::string(classOf(cont)) + "::", c2 = cont == "set" ? "XalanMap::" : c1;
+        std::vector<std::string> own; int shown = 0;
+        for (auto& f : firstStack(err, p == std::string::npos ? 0 : p)) {
+            if (stackOut && shown < 12) { *stackOut += "\n    " + f.first.substr(0, 160) + "  " + f.second; ++shown; }
+            if (f.second.find("/src/xalanc/") == std::string::npos) continue;
+            const std::string n = assertFn(f.first.c_str());
+            if (own.size() < 2 && (n.compare(0, c1.size(), c1) == 0 || n.compare(0, c2.size(), c2) == 0) && (own.empty() || own.back() != n)) own.push_back(n);
         }
         // frames of the class under test identify the defect independently of the element type; without any, the report
         // comes from the harness reading an element the container handed out
         if (own.empty()) return kind + ":reading-" + cont + "-element:" + familyOf(op);
-        frames = own;
-        std::string sig = kind + ":"; for (size_t i = 0; i < frames.size(); ++i) sig += (i ? "<" : "") + frames[i];
+        std::string sig = kind + ":"; for (size_t i = 0; i < own.size(); ++i) sig += (i ? "<" : "") + own[i];
         return sig;
     }
     typedef ProgressOut Progress;
@@ -405,8 +444,8 @@ struct C20 : public Driver {
         res.count("histories:" + std::string(progress->cont)); res.count("crashed-histories");
         std::string cls, sig, detail;
         if (WIFEXITED(st) && (WEXITSTATUS(st) == 77 || err.find("ERROR: AddressSanitizer") != std::string::npos)) {
-            std::string kind; cls = "sanitizer:asan"; sig = asanSig(err, &kind, progress->cont, progress->kind);
-            detail = "AddressSanitizer " + kind + " during " + at + "\n" + err.substr(0, 3500);
+            std::string kind, stack; cls = "sanitizer:asan"; sig = asanSig(err, &kind, progress->cont, progress->kind, &stack);
+            detail = "AddressSanitizer " + kind + " during " + at + "; innermost frames:" + stack + "\n" + err.substr(0, 1200);
         } else if (WIFEXITED(st) && WEXITSTATUS(st) == 78) { cls = "abnormal-termination"; sig = std::string("terminate:") + progress->cont + ":" + familyOf(progress->kind); detail = "std::terminate during " + at; }
         else if (WIFEXITED(st) && WEXITSTATUS(st) == 70) { res.harness("assertion outside a history in the interpreter process: " + err.substr(0, 400)); tr.ev("child-harness"); return; }
         else if (WIFSIGNALED(st)) { cls = "abnormal-termination"; sig = "signal" + std::to_string(WTERMSIG(st)) + ":" + progress->cont; detail = "interpreter process killed by signal " + std::to_string(WTERMSIG(st)) + " during " + at; }
@@ -457,7 +496,7 @@ struct C20 : public Driver {
         res.count("histories:" + R->cont); res.count(std::string("mode:") + (R->modeB ? "B" : "A"));
         const int code = sigsetjmp(A.jb, 1);
         bool completed = false;
-        if (code == 0) { A.armed = 1; alarm(20); dispatch(*R); alarm(0); A.armed = 0; completed = res.status != "harness-error" || true; }
+        if (code == 0) { A.armed = 1; alarm(20); dispatch(*R); alarm(0); A.armed = 0; completed = true; }
         else { alarm(0); A.armed = 0; aborted(*R, code); res.count("aborted-histories"); if (code == ABORT_SIGNAL) abortedBySignal = true; }
         SimMemoryManager& mm = R->mm;
         if (code == 0 && completed && R->phase == "final" && !R->poisoned) {
